@@ -1121,6 +1121,17 @@ fn start_daemon(world: &Arc<World>, i: usize) {
             if w.epoch_of(i) == epoch {
                 w.indication(i, ind);
             }
+            // a stalled node's user does not read its indications either (the bounded indication
+            // channel fills; nothing may get lost)
+            loop {
+                let until = { w.inner.lock().unwrap().stalled_until[i] };
+                let now = w.now_us();
+                if until > now {
+                    tokio::time::sleep(Duration::from_micros(until - now)).await;
+                } else {
+                    break;
+                }
+            }
         }
     });
 }
